@@ -7,6 +7,7 @@ import (
 	"sort"
 	"strings"
 	"sync"
+	"sync/atomic"
 	"time"
 
 	kafka "github.com/segmentio/kafka-go"
@@ -517,4 +518,24 @@ func isDeadlineErr(err error) bool {
 		return true
 	}
 	return strings.Contains(err.Error(), "i/o timeout") || strings.Contains(err.Error(), "deadline exceeded")
+}
+
+// wHookPoints is the table of delays the Writer checks install at the library's verif hook points: the
+// timer goroutine is held back before it takes the partition mutex, and a quarter of the hand-overs of
+// a closed batch to the partition queue are held back for 0.2-1 ms. Correct code does the hand-over
+// under the partition mutex, so the delays only slow the writer down.
+func wHookPoints() map[string]func() {
+	var tick, ptick uint64
+	return map[string]func(){
+		"writer.awaitBatch.timer": func() {
+			if n := atomic.AddUint64(&tick, 1); n%2 == 0 {
+				time.Sleep(time.Duration(50+(n%5)*100) * time.Microsecond)
+			}
+		},
+		"writer.batchQueue.Put": func() {
+			if n := atomic.AddUint64(&ptick, 1); n%4 == 0 {
+				time.Sleep(time.Duration(200+(n%5)*200) * time.Microsecond)
+			}
+		},
+	}
 }
